@@ -345,7 +345,8 @@ func CompileList(list List) (f Object) {
 				lc := Lambda{
 					Doc: &FuncDoc{
 						Name: name,
-						Args: []*DocArg{},
+						// Any arguments are accepted until the function is defined.
+						Args: []*DocArg{{Name: "&rest"}, {Name: "args"}},
 					},
 					Forms: List{Undefined(name)},
 				}
@@ -355,6 +356,7 @@ func CompileList(list List) (f Object) {
 						Function: Function{
 							Name: name,
 							Self: &lc,
+							Args: args,
 						},
 					}
 				}
